@@ -42,6 +42,13 @@ def cells(tier, seed):
             z = dict(c)
             z["zero_M"] = True
             out.append(z)
+    # determinants outside the float64 range (|ln det| > 745) although every log-determinant is
+    # an ordinary number: moderate dimension times an extreme (but uniform) scale
+    for ck in ("full", "diag"):
+        for (Dx, Dy) in ((26, 24), (24, 24)):
+            for s in (1e-14, 1e14):
+                out.append({"part": "range", "ck": ck, "Dx": Dx, "Dy": Dy, "scale": s, "reps": 1,
+                            "group": ["range", Dx, Dy], "cost": 3.0})
     return out
 
 
@@ -53,6 +60,8 @@ def run_pdf(cell, rec, seed):
         p, tp = build.mk_pdf(rng, R, D, kappa=kp, diag=diag)
         q, tq = build.mk_pdf(rng, R, D, kappa=kq, diag=diag)
         q1, tq1 = build.mk_pdf(rng, 1, D, kappa=kq, diag=diag)
+        # the second argument may be of the other class (diagonal vs full)
+        qx, tqx = build.mk_pdf(rng, R, D, kappa=kq, diag=not diag)
         info = {"part": "pdf", "diag": diag, "R": R, "D": D, "kappa_p": kp, "kappa_q": kq}
         rec.cell(["pdf", diag, R, D], R > 1 or D > 1)
         H = orc.entropy(tp.Sigma)
@@ -67,7 +76,8 @@ def run_pdf(cell, rec, seed):
                                       np.abs(tp.mu)) * 2 + np.abs(tp.ln_beta)
                 rec.close("entropy = -E[ln p]", -np.asarray(e2), H, ns=ns2, detail=info,
                           mech="entropy-vs-expectation")
-        for name, qq, tqq, Rres in (("kl[R,R]", q, tq, R), ("kl[R,1]", q1, tq1, R)):
+        for name, qq, tqq, Rres in (("kl[R,R]", q, tq, R), ("kl[R,1]", q1, tq1, R),
+                                    ("kl[R,R;other class]", qx, tqx, R)):
             ref = orc.kl(tp.mu, tp.Sigma, tqq.mu, tqq.Sigma)
             # natural scale: sum of absolute terms
             A = np.abs(np.linalg.solve(np.broadcast_to(tqq.Sigma, (R, D, D)), tp.Sigma))
@@ -219,8 +229,42 @@ def run_cond(cell, rec, seed):
             rec.sample({"case": info, "H(Y|X)": Hc_ref, "I": I_ref})
 
 
+def run_range(cell, rec, seed):
+    ck, Dx, Dy, s = cell["ck"], cell["Dx"], cell["Dy"], cell["scale"]
+    C = build.lib().conditional
+    rng = gen.rng_for(seed, "C13r", ck, Dx, Dy, s)
+    with gen.calm():
+        Sig = gen.spd_batch(rng, 1, Dy, 10.0, scale=s, diag=(ck == "diag"))
+        M = gen.lin_map(rng, 1, Dy, Dx, smin=0.3, smax=2.0)
+        b = gen.vec(rng, 1, Dy) * np.sqrt(s)
+        Sx = gen.spd_batch(rng, 1, Dx, 10.0, scale=s)
+        mx = gen.vec(rng, 1, Dx) * np.sqrt(s)
+    cls = C.ConditionalGaussianDiagPDF if ck == "diag" else C.ConditionalGaussianPDF
+    info = {"part": "range", "ck": ck, "Dx": Dx, "Dy": Dy, "scale": s,
+            "ln_det_noise": float(orc.slogdet(Sig)[0]), "ln_det_prior": float(orc.slogdet(Sx)[0])}
+    rec.cell(["range", ck, Dx, Dy, s], True)
+    c = lc.call(rec, "ctor", lambda: cls(M=J(M), b=J(b), Sigma=J(Sig)), info)
+    p = lc.call(rec, "ctor", lambda: build.lib().pdf.GaussianPDF(Sigma=J(Sx), mu=J(mx)), info)
+    if c is None or p is None:
+        return
+    Sy = Sig + np.einsum("rab,rbc,rdc->rad", M, Sx, M)
+    Hc, Hy, Hx = orc.entropy(Sig), orc.entropy(Sy), orc.entropy(Sx)
+    ns = 1.0 + np.abs(Hc) + np.abs(Hy) + 2 * np.abs(Hx) + (Dx + Dy) * (1 + orc.LN2PI)
+    got = lc.call(rec, "entropy", lambda: p.entropy(), info)
+    if got is not None:
+        rec.close("entropy", got, Hx, ns=ns, detail=info, mech="entropy-value:range")
+    ce = lc.call(rec, "conditional_entropy", lambda: c.conditional_entropy(p), info)
+    if ce is not None:
+        rec.close("conditional entropy", ce, Hc, ns=ns, detail=info,
+                  mech=f"conditional-entropy-value:{ck}:range")
+    mi = lc.call(rec, "mutual_information", lambda: c.mutual_information(p), info)
+    if mi is not None:
+        rec.close("mutual information", mi, Hy - Hc, ns=ns, detail=info,
+                  mech=f"mutual-information-value:{ck}:range")
+
+
 def run_cell(cell, rec, seed):
-    (run_pdf if cell["part"] == "pdf" else run_cond)(cell, rec, seed)
+    {"pdf": run_pdf, "cond": run_cond, "range": run_range}[cell["part"]](cell, rec, seed)
 
 
 def classify(mech, d):
